@@ -298,6 +298,52 @@ def run_many_streams(spec, acc):
             if ov != of:
                 acc.violation("history-changes-fast-packet-probe", f"after fragments on {n_streams} streams a complete message on a new stream decodes differently than on a fresh decoder "
                               f"({[o[0] for o in ov][-1]} vs {[o[0] for o in of][-1]})", {"streams_with_leftovers": n_streams, "probe_pgn": d.pgn, "probe_source": src})
+        # neighbouring streams: a transfer left unfinished on (PGN, source, destination) and then a complete message, with the
+        # SAME sequence counter, on a stream that differs in one element only (next destination, next source, source and
+        # destination swapped, broadcast instead of addressed). That stream has never used any counter: the message decodes as
+        # on a fresh decoder, and the unfinished transfer is still completed by its own frames afterwards.
+        addressed = [d_ for d_ in dbx.defs if d_.supported and d_.fixed_layout and d_.type == "Fast" and ((d_.pgn >> 8) & 0xFF) < 240 and not d_.fallback and d_.length
+                     and not any(f.offset is not None for f in d_.fields)]
+        for nb in range(6 if quick else 12):
+            d = rng.choice(addressed) if addressed and nb % 3 != 2 else rng.choice(pool.fasts)
+            pdu1 = ((d.pgn >> 8) & 0xFF) < 240
+            pb1, pb2 = pool.payload(d), pool.payload(d)
+            if not pb1 or not pb2:
+                continue
+            s0, a0 = rng.randrange(0, 250), (rng.randrange(0, 250) if pdu1 else 255)
+            q = rng.randrange(8)
+            victim2, fresh2, alone = NMEA2000Decoder(), NMEA2000Decoder(), NMEA2000Decoder()
+            fr1 = wire.fast_frames(pb1, q, 0xFF)
+            keep = rng.randint(1, max(1, len(fr1) - 1))
+            first_part = [("decode_tcp", wire.ebyte_frame(wire.can_id(3, d.pgn, s0, a0), f), {}) for f in fr1[:keep]]
+            rest = [("decode_tcp", wire.ebyte_frame(wire.can_id(3, d.pgn, s0, a0), f), {}) for f in fr1[keep:]]
+            for i in first_part:
+                call(victim2, i)
+            neigh = [(s0 ^ 1, a0), (s0 + 1, a0), ((s0 + 2) % 250, a0)]
+            if pdu1:
+                neigh += [(s0, a0 ^ 1), (s0, a0 + 1), (s0, (a0 + 2) % 250), (a0, s0), (s0, 255), (s0, a0 ^ 0x80)]
+            for (s1, a1) in neigh:
+                if (s1, a1) == (s0, a0) or s1 > 251:
+                    continue
+                pr = [("decode_tcp", wire.ebyte_frame(wire.can_id(3, d.pgn, s1, a1), f), {}) for f in wire.fast_frames(pb2, q, 0xFF)]
+                ov = [call(victim2, i) for i in pr]
+                of = [call(fresh2, i) for i in pr]
+                acc.count("probes_compared")
+                acc.count("neighbour_stream_probes_compared")
+                acc.cover("neighbour_stream_kinds", "addressed" if pdu1 else "broadcast")
+                if ov != of or ov[-1][0] != "msg":
+                    acc.violation("history-changes-fast-packet-probe", f"PGN {d.pgn}: with a transfer unfinished on (source {s0}, destination {a0}) a complete message with the same "
+                                  f"sequence counter on the never used stream (source {s1}, destination {a1}) gives {ov[-1][0]}, a fresh decoder gives {of[-1][0]}",
+                                  {"pgn": d.pgn, "unfinished_stream": [s0, a0], "probe_stream": [s1, a1], "sequence_counter": q, "frames_of_the_unfinished_transfer": keep})
+                    break
+            # and the unfinished transfer itself is completed by its own remaining frames, as if nothing had happened in between
+            ov = [call(victim2, i) for i in rest]
+            for i in first_part:
+                call(alone, i)
+            oa = [call(alone, i) for i in rest]
+            if rest and ov != oa:
+                acc.violation("history-changes-fast-packet-probe", f"PGN {d.pgn}: a transfer on (source {s0}, destination {a0}) interrupted by complete messages on neighbouring streams "
+                              f"ends in {ov[-1][0]}, uninterrupted in {oa[-1][0]}", {"pgn": d.pgn, "stream": [s0, a0], "sequence_counter": q})
         acc.case(("many-streams", rep, n_streams) if compared else None)
         acc.count("determinism_histories")
         acc.count("isolation_subhistories")
